@@ -548,7 +548,10 @@ class SamplingMethod(DirectMethod):
         """
         Transcription is the process of going from a continuous-time OCP to an NLP
         """
-        if phase==0: return
+        if phase==0:
+            # Start from empty bookkeeping lists: a previous transcription may have filled them
+            self.clean()
+            return
         opti = stage.master._method.opti
         if phase==1:
 
